@@ -138,6 +138,15 @@ theorem no_stall_full :
     ∀ τ, run prog O n filterTxOutStep σ ≠ .ok (.retd τ) :=
   fun O n σ hc hk τ => MW.Lemmas.ApiStall.filterTxOutStep_no_retd prog O n σ hc.parse_total hk τ
 
+/-- NO STALL, the whole loop: the statement `for … range tx.TxOut { filterTxOutStep }` exactly as it stands in
+    `f_filterTx` (MW.Model.Api, with its declared invariant) is never left by `return`, for any number of
+    outputs, any budget, any oracle meeting C16's contract and a keystore lookup that does not fail: filterTx
+    goes on to its classification of the transaction whatever the scripts of the outputs are. -/
+theorem no_stall_loop (O : Oracle) (n : Nat) (σ : State) (hc : C16Contract O)
+    (hk : ∀ τ, (O "w.ksmgr.GetManagedAddressByScriptHash" τ).getD 1 0 = 0) :
+    ∀ τ, run prog O n (.loop "ft.o" "tx.TxOut" [.nz "rec"] filterTxOutStep) σ ≠ .ok (.retd τ) :=
+  fun τ => MW.Lemmas.ApiStall.filterTxOutLoop_no_retd prog O n σ _ hc.parse_total hk τ
+
 /-- the hypotheses of `no_stall_full` are jointly satisfiable by an oracle that takes the supported-script
     branch (`MW.Lemmas.ApiStall.supportedOracle`: ps = 1, pserr = 0; ma = 1, merr = 0) -/
 example : C16Contract supportedOracle ∧ (∀ τ, (supportedOracle "w.ksmgr.GetManagedAddressByScriptHash" τ).getD 1 0 = 0) ∧
